@@ -124,6 +124,28 @@ def v_protect(ex, args, ins):
     return ()
 
 
+@vfunc("vLock")
+def v_lock(ex, args, ins):
+    return ()
+
+
+@vfunc("vUnlock")
+def v_unlock(ex, args, ins):
+    return ()
+
+
+@vfunc("vSleep")
+def v_sleep(ex, args, ins):
+    return ()
+
+
+@vfunc("vMark")
+def v_mark(ex, args, ins):
+    from .conc import event
+    event(ex, "mark", label=args[0])
+    return ()
+
+
 def protect(ex, iv, label):
     """snapshot the memory reachable (one level) from an interface-wrapped pointer or slice"""
     p = ex.prog
